@@ -185,6 +185,8 @@ fn odd_case(len: usize, content: &str, edit: &str, seed: u64) -> (Vec<u8>, Vec<u
             s
         }
         "drop_head" => basis[len.min(777)..].to_vec(),
+        // one literal run of 3 MiB (more than an async file accepts per write call)
+        "big_different" => junk(seed, 79, 3 << 20),
         _ => basis.clone(),
     };
     (basis, source)
@@ -415,6 +417,10 @@ fn run_cli_part(ctx: &Ctx, samples: &mut Vec<Value>, bounds: &mut serde_json::Ma
                 jobs.push(json!({"level":"chunk","B":b,"basis":s,"edit":e}));
             }
         }
+    }
+    for bs in [512usize, 65536] {
+        jobs.push(json!({"level":"odd","bs":bs,"len":1000,"content":"rand","edit":"big_different"}));
+        jobs.push(json!({"level":"odd","bs":bs,"len":200000,"content":"rep","edit":"insert_mid"}));
     }
     let seed = ctx.seed;
     let n = jobs.len() as u64;
